@@ -446,12 +446,16 @@ func r10_1c(c *RC) {
 		key := "insert:" + tree + "@" + fnName(cs.Fn)
 		arg := cs.Instr.(ssa.CallInstruction).Common().Args[1]
 		verdict := ""
-		for _, l := range Leaves(arg, nil) {
+		var argLeaves []ssa.Value
+		for _, l0 := range Leaves(arg, nil) {
+			argLeaves = append(argLeaves, helperResultLeaves(p, l0)...)
+		}
+		for _, l := range argLeaves {
 			switch x := l.(type) {
 			case *ssa.Alloc:
 				// literal: collect protocol constants stored under it
 				vals := map[int64]bool{}
-				instrs(cs.Fn, func(_ *ssa.BasicBlock, _ int, in ssa.Instruction) {
+				instrs(x.Parent(), func(_ *ssa.BasicBlock, _ int, in ssa.Instruction) {
 					st, ok := in.(*ssa.Store)
 					if !ok {
 						return
@@ -462,7 +466,7 @@ func r10_1c(c *RC) {
 					// does this metadata literal flow into x.metadata ?
 					root := storeBase(st)
 					flows := false
-					instrs(cs.Fn, func(_ *ssa.BasicBlock, _ int, y ssa.Instruction) {
+					instrs(x.Parent(), func(_ *ssa.BasicBlock, _ int, y ssa.Instruction) {
 						if s2, ok := y.(*ssa.Store); ok && storeBase(s2) == ssa.Value(x) {
 							for _, l2 := range Leaves(s2.Val, nil) {
 								if l2 == root {
